@@ -13,6 +13,9 @@ class Unsupported(Exception):
     pass
 
 
+COUNTERS = {"blocks": 0, "edges": 0}
+
+
 W = 64
 
 
@@ -345,6 +348,9 @@ class Executor:
         p.env[local] = Val("bv", term=sym, signed=signed, width=width)
 
     def _dfs(self, p, bb, depth, max_paths):
+        COUNTERS["blocks"] += 1
+        if depth > 0:
+            COUNTERS["edges"] += 1
         if depth > 200:
             raise Unsupported("path too long (loop?)")
         if len(self.paths) > max_paths:
